@@ -20,7 +20,7 @@ func facts(repo string) (string, error) {
 	if err != nil {
 		return "", err
 	}
-	want := map[string]bool{"Push": true, "Pop": true, "Len": true}
+	want := map[string]bool{"Push": true, "Pop": true, "Len": true, "PopWait": true}
 	got := map[string][]string{}
 	for _, d := range f.Decls {
 		fd, ok := d.(*ast.FuncDecl)
@@ -28,6 +28,10 @@ func facts(repo string) (string, error) {
 			continue
 		}
 		if !strings.Contains(exprString(fd.Recv.List[0].Type), "SyncList") {
+			continue
+		}
+		if fd.Name.Name == "PopWait" {
+			got[fd.Name.Name] = popWaitShape(fd)
 			continue
 		}
 		got[fd.Name.Name] = accesses(fd.Body)
@@ -42,6 +46,11 @@ func facts(repo string) (string, error) {
 		}
 		fmt.Fprintf(&b, "/-- shared-memory accesses of `%s` in source order -/\ndef %sOps : List SrcOp :=\n  [%s]\n\n", name, strings.ToLower(name), strings.Join(ops, ", "))
 	}
+	pw, ok := got["PopWait"]
+	if !ok {
+		return "", fmt.Errorf("method SyncList.PopWait not found")
+	}
+	fmt.Fprintf(&b, "/-- control skeleton of `PopWait` in source order: tests of the duration parameter, loops,\ncalls of `Pop`, `runtime.Gosched`, returns, the ticker -/\ndef popWaitOps : List SrcOp :=\n  [%s]\n\n", strings.Join(pw, ", "))
 	b.WriteString("end Golib.Gen.C11\n")
 	return b.String(), nil
 }
@@ -62,6 +71,8 @@ func exprString(e ast.Expr) string {
 		return x.Value
 	case *ast.ParenExpr:
 		return exprString(x.X)
+	case *ast.BinaryExpr:
+		return exprString(x.X) + " " + x.Op.String() + " " + exprString(x.Y)
 	}
 	return "?"
 }
@@ -146,6 +157,60 @@ func accesses(body *ast.BlockStmt) []string {
 					ops = append(ops, ".writeVal")
 				} else {
 					ops = append(ops, ".readVal")
+				}
+			}
+		}
+		return true
+	})
+	return ops
+}
+
+// popWaitShape: the control skeleton of PopWait in source order.  The duration parameter
+// is renamed to `d` so that a harmless renaming does not change the facts.
+func popWaitShape(fd *ast.FuncDecl) []string {
+	param := ""
+	if fd.Type.Params != nil && len(fd.Type.Params.List) == 1 && len(fd.Type.Params.List[0].Names) == 1 {
+		param = fd.Type.Params.List[0].Names[0].Name
+	}
+	recv := ""
+	if len(fd.Recv.List[0].Names) == 1 {
+		recv = fd.Recv.List[0].Names[0].Name
+	}
+	mentions := func(e ast.Expr) bool {
+		found := false
+		ast.Inspect(e, func(n ast.Node) bool {
+			if id, ok := n.(*ast.Ident); ok && id.Name == param && param != "" {
+				found = true
+			}
+			return true
+		})
+		return found
+	}
+	var ops []string
+	ast.Inspect(fd.Body, func(n ast.Node) bool {
+		switch x := n.(type) {
+		case *ast.IfStmt:
+			if mentions(x.Cond) {
+				c := strings.ReplaceAll(" "+exprString(x.Cond)+" ", " "+param+" ", " d ")
+				ops = append(ops, fmt.Sprintf(".cond %q", strings.TrimSpace(c)))
+			}
+		case *ast.ForStmt, *ast.RangeStmt:
+			ops = append(ops, ".loop")
+		case *ast.ReturnStmt:
+			ops = append(ops, ".ret")
+		case *ast.CallExpr:
+			if sel, ok := x.Fun.(*ast.SelectorExpr); ok {
+				if id, ok := sel.X.(*ast.Ident); ok {
+					switch {
+					case id.Name == recv && sel.Sel.Name == "Pop":
+						ops = append(ops, ".callPop")
+					case id.Name == "runtime" && sel.Sel.Name == "Gosched":
+						ops = append(ops, ".gosched")
+					case id.Name == "time" && sel.Sel.Name == "NewTicker":
+						ops = append(ops, ".ticker")
+					case id.Name == "atomic":
+						ops = append(ops, fmt.Sprintf(".other %q", "atomic."+sel.Sel.Name))
+					}
 				}
 			}
 		}
